@@ -19,7 +19,7 @@ pub fn def() -> PropDef {
     PropDef {
         id: "C16",
         level: "exploration",
-        rule: "cases = (operation, list shape in {proper, dotted}, build profile in {release, dev}, n, thread stack size): 40 operations of the public API that walk a list (parse from str/slice/stream, next_datum, print via to_string/to_writer/Display/Emacs options, to_vec family, iter/list_iter/into_iter, get/index by position, name and value, is_list/is_dotted_list, clone, ==, drop, Datum clone/==/drop/Ref walk, serde to_value/from_value/to_string/from_str on Vec<u32>), lists built by constructors, by the parser and by Serde; n = 10^6 on a 2 MiB thread (and 4x10^6 in thorough); thorough also finds by bisection over child runs the minimal stack (8 KiB resolution) at which n = 10^3 succeeds and requires n = 10^6 to succeed with that + 32 KiB. non-trivial = one child process whose exit status was judged; distinct = hash of (op, shape, profile, n, stack)",
+        rule: "cases = (operation, list shape in {proper, dotted}, element kind in {int, nil, null, string, pair}, build profile in {release, dev}, n, thread stack size): 38 operations of the public API that walk a list (parse from str/slice/stream, next_datum, print via to_string/to_writer/Display/Emacs options, to_vec family, iter/list_iter/into_iter, get/index by position, name and value, is_list/is_dotted_list, clone, ==, drop, Datum clone/==/drop/Ref walk, serde to_value/from_value/to_string/from_str on Vec<u32>), lists built by constructors, by the parser and by Serde; n = 10^6 on a 2 MiB thread (and 4x10^6 in thorough); thorough also finds by bisection over child runs the minimal stack (8 KiB resolution) at which n = 10^3 succeeds and requires n = 10^6 to succeed with that + 32 KiB. non-trivial = one child process whose exit status was judged; distinct = hash of (op, shape, profile, n, stack)",
         assumptions: &["SIGSEGV, or SIGABRT with 'has overflowed its stack' on stderr, means stack overflow; any other abnormal end is inconclusive", "hook-free release and dev builds of the harness are what users ship/debug"],
         nofast_too: false,
         min_quick: 60,
@@ -36,7 +36,7 @@ pub const OPS: &[&str] = &[
     "cons-iter", "list_iter", "into_iter",
     "get-last", "index-out-of-range", "index-missing-name", "get-by-value-key",
     "is_list", "is_dotted_list",
-    "clone", "eq", "drop", "drop-parsed",
+    "clone", "eq", "eq-all-different", "eq-last-different", "drop", "drop-parsed",
     "datum-clone", "datum-eq", "datum-drop", "datum-walk", "datum-into-value",
     "serde-to_value", "serde-from_value", "serde-to_string", "serde-from_str", "serde-drop-value",
 ];
@@ -57,8 +57,26 @@ fn list_text(n: usize, dotted: bool) -> String {
     s
 }
 
+pub const ELEMS: &[&str] = &["int", "nil", "null", "string", "pair"];
+
+thread_local! {
+    static ELEM: std::cell::Cell<usize> = std::cell::Cell::new(0);
+    static OFFSET: std::cell::Cell<usize> = std::cell::Cell::new(0);
+}
+
+fn elem_value(i: usize) -> Value {
+    let i = i + OFFSET.with(|o| o.get());
+    match ELEMS[ELEM.with(|e| e.get())] {
+        "nil" => Value::Nil,
+        "null" => Value::Null,
+        "string" => Value::string(format!("s{}", i % 1000)),
+        "pair" => Value::cons(Value::from((i % 1000) as u32), Value::symbol("x")),
+        _ => Value::from((i % 1000) as u32),
+    }
+}
+
 fn build_value(n: usize, dotted: bool) -> Value {
-    let items = (0..n).map(|i| Value::from((i % 1000) as u32));
+    let items = (0..n).map(elem_value);
     if dotted {
         Value::append(items, Value::symbol("t"))
     } else {
@@ -85,6 +103,18 @@ fn build(op: &str, n: usize, dotted: bool) -> Built {
         // a Vec<u32> is a proper list
         "serde-from_str" => Built::Text(list_text(n, false)),
         "eq" => Built::Val2(build_value(n, dotted), build_value(n, dotted)),
+        "eq-all-different" => {
+            // two lists that differ in (almost) every element
+            let a = build_value(n, dotted);
+            OFFSET.with(|o| o.set(1));
+            let b = build_value(n, dotted);
+            Built::Val2(a, b)
+        }
+        "eq-last-different" => {
+            let a = build_value(n, dotted);
+            let b = Value::append((0..n).map(elem_value), Value::symbol("other-tail"));
+            Built::Val2(a, b)
+        }
         "drop-parsed" => Built::Val(lexpr::from_str(&list_text(n, dotted)).unwrap()),
         "datum-clone" | "datum-drop" | "datum-walk" | "datum-into-value" => Built::Dat(datum_of(&list_text(n, dotted))),
         "datum-eq" => {
@@ -240,6 +270,13 @@ fn run_op(op: &str, b: Built, n: usize) -> String {
             forget(v);
             "cloned".into()
         }
+        ("eq-all-different", Built::Val2(a, b)) | ("eq-last-different", Built::Val2(a, b)) => {
+            let r = a == b;
+            let r2 = a != b;
+            forget(a);
+            forget(b);
+            format!("{} {}", r, r2)
+        }
         ("eq", Built::Val2(a, b)) => {
             let r = a == b;
             forget(a);
@@ -312,8 +349,16 @@ pub fn child(args: &[String]) -> i32 {
     let n: usize = args[1].parse().unwrap();
     let stack_kib: usize = args[2].parse().unwrap();
     let dotted = args[3] == "dotted";
+    let elem = args.get(4).and_then(|e| ELEMS.iter().position(|x| x == e)).unwrap_or(0);
     let op2 = op.clone();
-    let built = std::thread::Builder::new().stack_size(1 << 30).spawn(move || build(&op2, n, dotted)).unwrap().join();
+    let built = std::thread::Builder::new()
+        .stack_size(1 << 30)
+        .spawn(move || {
+            ELEM.with(|e| e.set(elem));
+            build(&op2, n, dotted)
+        })
+        .unwrap()
+        .join();
     let built = match built {
         Ok(b) => b,
         Err(_) => return 4,
@@ -338,7 +383,11 @@ enum Run {
 }
 
 fn run_child(bin: &str, op: &str, n: usize, stack_kib: usize, dotted: bool) -> (Run, String) {
-    let args: Vec<String> = vec!["child".into(), "c16".into(), op.into(), n.to_string(), stack_kib.to_string(), if dotted { "dotted".into() } else { "proper".into() }];
+    run_child_elem(bin, op, n, stack_kib, dotted, "int")
+}
+
+fn run_child_elem(bin: &str, op: &str, n: usize, stack_kib: usize, dotted: bool, elem: &str) -> (Run, String) {
+    let args: Vec<String> = vec!["child".into(), "c16".into(), op.into(), n.to_string(), stack_kib.to_string(), if dotted { "dotted".into() } else { "proper".into() }, elem.into()];
     let r = child::run(bin, &args, Duration::from_secs(600));
     match &r.exit {
         Exit::Code(0) if r.stdout.contains("DONE") => {
@@ -482,6 +531,33 @@ pub fn sets(ctx: &Ctx) -> Vec<CaseSet> {
         Box::new(move |rep, _rng, case| {
             let op = OPS[(case % nops) as usize];
             fixed_case(rep, op, case >= nops, 1_000_000);
+        }),
+    ));
+    // clone / == / drop / consuming iteration over lists of other element kinds
+    const KIND_OPS: &[&str] = &["clone", "eq", "eq-all-different", "drop", "into_iter", "cons-into_vec", "print-to_string"];
+    let nk = (ELEMS.len() - 1) * KIND_OPS.len();
+    out.push(CaseSet::new(
+        "element-kinds",
+        nk as u64,
+        Box::new(move |rep, _rng, case| {
+            let elem = ELEMS[1 + (case as usize) / KIND_OPS.len()];
+            let op = KIND_OPS[(case as usize) % KIND_OPS.len()];
+            for (pname, bin) in profiles() {
+                let (res, info) = run_child_elem(&bin, op, 1_000_000, 2048, false, elem);
+                rep.eval();
+                rep.distinct(hash2(hash_str(op), hash2(hash_str(elem), hash_str(pname))));
+                rep.count(&format!("children:{}", pname));
+                match res {
+                    Run::Ok => rep.count("children:completed"),
+                    Run::Overflow => rep.violation(
+                        "fixed-stack",
+                        format!("C16:stack-overflow:{}:profile={}", op, pname),
+                        format!("{} on a list of 1000000 {} elements ({} build) on a 2 MiB thread: stack overflow ({})", op, elem, pname, info),
+                        json!({"op": op, "elem": elem, "profile": pname}),
+                    ),
+                    Run::Inconclusive => rep.inconclusive(format!("child {} {} {}: {}", op, elem, pname, info)),
+                }
+            }
         }),
     ));
     if ctx.thorough {
